@@ -9,6 +9,9 @@ class _Rec(CLIApplicationComponent):
         LAUNCHES.append((type(self).__name__, kwargs))
 
     async def run(self):
+        import sniffio
+        from anyio import to_thread
+        LAUNCHES[-1] = LAUNCHES[-1] + (int(to_thread.current_default_thread_limiter().total_tokens), sniffio.current_async_library())
         return 0
 
 
